@@ -333,13 +333,17 @@ def stackMat (A B : Csr) : Csr :=
     indptr := A.indptr ++ B.indptr.tail.map (· + A.indptr.getLastD 0),
     indices := A.indices ++ B.indices, data := A.data ++ B.data }
 
-/-- `stack_diag(A, B)` = [[A, 0], [0, B]].  This is the behaviour the property demands (and the
-    code has for every `B` with at least one line); see finding `stack_diag-empty-B-shape` for the
-    shortcut `if B.indptr.size == 1: return A` of the code, which forgets the minor dimension of `B`. -/
-def stackDiag (A B : Csr) : Csr :=
+/-- the general branch of `stack_diag`: append the lines of `B` with shifted minor indices -/
+def stackDiagGen (A B : Csr) : Csr :=
   { nrows := A.nrows + B.nrows, ncols := A.ncols + B.ncols,
     indptr := A.indptr ++ B.indptr.tail.map (· + A.indptr.getLastD 0),
     indices := A.indices ++ B.indices.map (· + A.ncols), data := A.data ++ B.data }
+
+/-- `stack_diag(A, B)` = [[A, 0], [0, B]] as coded now: `if B.shape == (0, 0): return A`, else the
+    general branch.  (Before commit 962d765f1 the shortcut was `B.indptr.size == 1`, which forgot the
+    minor dimension of a `B` without lines; regression input corpus/C35/fixed-stack-diag-empty-B-shape.json.) -/
+def stackDiag (A B : Csr) : Csr :=
+  if B.nrows = 0 ∧ B.ncols = 0 then A else stackDiagGen A B
 
 /-! ### block-diagonal construction from sparse blocks -/
 
@@ -578,5 +582,26 @@ def denseToCsr (M : List (List Rat)) (c : Nat) : Csr :=
 def optimizedStorage (A : Csr) : Csr ⊕ Csc :=
   if optimizedIsCsc A.nrows A.ncols then .inr (Csc.ofRead (denseToCsr (transposeD A.toDense A.ncols) A.nrows))
   else .inl (denseToCsr A.toDense A.ncols)
+
+/-! ## copy, sparse_array_to_row_col_data -/
+
+/-- `copy(A)`: a new matrix over the same three arrays (index order untouched) -/
+def copyCsr (A : Csr) : Csr := ⟨A.nrows, A.ncols, A.indptr, A.indices, A.data⟩
+
+/-- `sparse_array_to_row_col_data(A, remove_nz)`: the (line, minor index, value) triplets in storage
+    order (scipy's `tocoo`: line index `i` repeated `indptr[i+1] - indptr[i]` times); with
+    `remove_nz` the explicit zeros are dropped. -/
+def toTriplets (A : Csr) (removeNz : Bool) : List (Nat × Nat × Rat) :=
+  let lineOf := (List.range A.nrows).flatMap (fun i => List.replicate (A.indptr.getD (i + 1) 0 - A.indptr.getD i 0) i)
+  let t := lineOf.zip (A.indices.zip A.data)
+  if removeNz then t.filter (fun x => decide (x.2.2 ≠ 0)) else t
+
+/-- value at (i, j) of the matrix given by triplets (duplicates summed) -/
+def tripletSum (i j : Nat) : List (Nat × Nat × Rat) → Rat
+  | [] => 0
+  | t :: l => (if t.1 = i ∧ t.2.1 = j then t.2.2 else 0) + tripletSum i j l
+
+def tripletDense (t : List (Nat × Nat × Rat)) (nrows ncols : Nat) : List (List Rat) :=
+  (List.range nrows).map (fun i => (List.range ncols).map (fun j => tripletSum i j t))
 
 end PorepyVerif.C35
